@@ -382,6 +382,9 @@ pub enum LaneKind {
 	Valgrind,
 	/// rebuild the harness with -Zsanitizer=address and run `<ID> quick` with it
 	AsanQuick,
+	/// rebuild with -Cinstrument-coverage, run `<ID> quick`, and report which
+	/// lines / error sites of the files under test the workload reached
+	Coverage(&'static [&'static str]),
 }
 
 #[derive(Clone, Debug)]
@@ -440,6 +443,7 @@ pub fn run_lane(id: &str, lane: &Lane, seed: u64) -> LaneResult {
 		LaneKind::Miri => "miri",
 		LaneKind::Valgrind => "valgrind-memcheck",
 		LaneKind::AsanQuick => "asan",
+		LaneKind::Coverage(_) => "llvm-cov",
 	};
 	match lane.kind {
 		LaneKind::AsanQuick => {
@@ -481,6 +485,83 @@ pub fn run_lane(id: &str, lane: &Lane, seed: u64) -> LaneResult {
 					res.violations.push(Violation { sig: format!("lane=asan;{};{}", norm_msg(&asan_line), first_sig), detail: format!("ASan-instrumented run of `{} quick` reported violations; log {}; {}", id, log.display(), asan_line), witness: None, sub: None });
 				} else if code != Some(0) {
 					res.inconclusive.push(format!("asan lane: nested run exit {:?} (harness error), see {}", code, log.display()));
+				}
+			}
+		}
+		LaneKind::Coverage(files) => {
+			let tdir = root.join("target").join("cov");
+			let log = dir.join("cov-build.log");
+			let mut c = Command::new("cargo");
+			c.args(["+nightly", "build", "--offline", "-q"]).current_dir(harness_dir()).env("RUSTFLAGS", "-Cinstrument-coverage").env("CARGO_TARGET_DIR", &tdir).env("CARGO_NET_OFFLINE", "true");
+			let (code, _) = run_with_timeout(c, &log, Duration::from_secs(1800));
+			let sysroot = Command::new("rustc").args(["+nightly", "--print", "sysroot"]).output().ok().map(|o| String::from_utf8_lossy(&o.stdout).trim().to_string()).unwrap_or_default();
+			let tools = PathBuf::from(sysroot).join("lib/rustlib/x86_64-unknown-linux-gnu/bin");
+			if code != Some(0) || !tools.join("llvm-cov").exists() {
+				res.inconclusive.push(format!("coverage lane: build failed or llvm-tools missing (exit {:?}), see {}", code, log.display()));
+			} else {
+				let nested_root = dir.join("cov-root");
+				let _ = fs::remove_dir_all(&nested_root);
+				let _ = fs::create_dir_all(&nested_root);
+				let bin = tdir.join("debug/pvh");
+				let mut c = Command::new(&bin);
+				c.args(["run", id, "quick"]).env("PVH_ROOT", &nested_root).env("PVH_FINDINGS", root.join("known_findings.json")).env("VERIF_SEED", seed.to_string()).env("PVH_NO_LANES", "1").env("LLVM_PROFILE_FILE", nested_root.join("prof-%p-%m.profraw"));
+				let (code, _) = run_with_timeout(c, &dir.join("cov-run.log"), Duration::from_secs(3600));
+				*exit_codes.entry(format!("{:?}", code)).or_default() += 1;
+				let raws: Vec<PathBuf> = fs::read_dir(&nested_root).map(|rd| rd.filter_map(|e| e.ok()).map(|e| e.path()).filter(|p| p.extension().map_or(false, |x| x == "profraw")).collect()).unwrap_or_default();
+				let merged = nested_root.join("merged.profdata");
+				let mut c = Command::new(tools.join("llvm-profdata"));
+				c.arg("merge").arg("-sparse").args(&raws).arg("-o").arg(&merged);
+				let (mc, _) = run_with_timeout(c, &dir.join("cov-merge.log"), Duration::from_secs(1800));
+				let lcov = dir.join("cov.lcov");
+				let mut c = Command::new(tools.join("llvm-cov"));
+				c.args(["export", "-format=lcov", "-instr-profile"]).arg(&merged).arg(&bin);
+				let repo = std::env::var("PVH_REPO").unwrap_or_else(|_| "/repo".into());
+				for f in files.iter() {
+					c.arg(format!("{}/{}", repo, f));
+				}
+				let (ec, _) = run_with_timeout(c, &lcov, Duration::from_secs(1800));
+				if mc != Some(0) || ec != Some(0) {
+					res.inconclusive.push(format!("coverage lane: llvm-profdata/llvm-cov failed ({:?}/{:?})", mc, ec));
+				} else {
+					// parse lcov: SF:<file>, DA:<line>,<count>
+					let text = fs::read_to_string(&lcov).unwrap_or_default();
+					let mut per_file: BTreeMap<String, Value> = BTreeMap::new();
+					let mut cur = String::new();
+					let mut hits: BTreeMap<String, BTreeMap<usize, u64>> = BTreeMap::new();
+					for l in text.lines() {
+						if let Some(f) = l.strip_prefix("SF:") {
+							cur = f.to_string();
+						} else if let Some(d) = l.strip_prefix("DA:") {
+							let mut it = d.split(',');
+							if let (Some(a), Some(b)) = (it.next(), it.next()) {
+								if let (Ok(line), Ok(cnt)) = (a.parse::<usize>(), b.parse::<u64>()) {
+									*hits.entry(cur.clone()).or_default().entry(line).or_default() += cnt;
+								}
+							}
+						}
+					}
+					for (f, lines) in &hits {
+						let src = fs::read_to_string(f).unwrap_or_default();
+						let src_lines: Vec<&str> = src.lines().collect();
+						let total = lines.len();
+						let hit = lines.values().filter(|c| **c > 0).count();
+						let interesting = |t: &str| t.contains("err!(") || t.contains("Err(") || t.contains("unwrap()") || t.contains("assert") || t.contains("expect(") || t.contains("?;") || t.contains("invalid_data");
+						let mut reached_sites = 0;
+						let mut unreached: Vec<String> = vec![];
+						for (ln, cnt) in lines {
+							let t = src_lines.get(ln - 1).map(|s| s.trim()).unwrap_or("");
+							if interesting(t) {
+								if *cnt > 0 {
+									reached_sites += 1;
+								} else {
+									unreached.push(format!("{}: {}", ln, t.chars().take(90).collect::<String>()));
+								}
+							}
+						}
+						evaluations += hit as u64;
+						per_file.insert(f.replace(&format!("{}/", repo), ""), json!({"lines_instrumented": total, "lines_executed": hit, "error_or_panic_sites_reached": reached_sites, "error_or_panic_sites_not_reached": unreached}));
+					}
+					res.json = json!({"per_file": per_file});
 				}
 			}
 		}
@@ -559,7 +640,13 @@ pub fn run_lane(id: &str, lane: &Lane, seed: u64) -> LaneResult {
 			}
 		}
 	}
+	let extra = res.json.clone();
 	res.json = json!({"lane": lane.name, "runtime": kind_name, "shards_run": lane.shards.len(), "of_shards": lane.nshards, "evaluations_under_runtime": evaluations, "exit_codes": exit_codes, "violations": res.violations.len(), "inconclusive": res.inconclusive.len(), "wall_s": t0.elapsed().as_secs_f64()});
+	if let (Some(o), Some(e)) = (res.json.as_object_mut(), extra.as_object()) {
+		for (k, v) in e {
+			o.insert(k.clone(), v.clone());
+		}
+	}
 	res
 }
 
@@ -825,6 +912,11 @@ pub fn run_check(mon: &dyn Monitor, tier: Tier, seed: u64) -> i32 {
 	let want_lanes = (tier == Tier::Thorough || std::env::var("PVH_LANES").is_ok()) && std::env::var("PVH_NO_LANES").is_err();
 	if want_lanes {
 		for lane in mon.lanes(tier) {
+			if let Ok(only) = std::env::var("PVH_ONLY_LANE") {
+				if only != lane.name {
+					continue;
+				}
+			}
 			let r = run_lane(id, &lane, seed);
 			println!("[{}] lane {}", id, r.json);
 			agg.lanes.push(r.json.clone());
